@@ -77,7 +77,11 @@ def main():
             hit = None
             t0 = time.time()
             for c in checks:
-                out = subprocess.run([os.path.join(VERIF, "check"), c], cwd=VERIF, env=dict(os.environ), capture_output=True, text=True, timeout=900).stdout
+                try:
+                    out = subprocess.run([os.path.join(VERIF, "check"), c], cwd=VERIF, env=dict(os.environ), capture_output=True, text=True, timeout=1500).stdout
+                except subprocess.TimeoutExpired:
+                    hit = c + " (check did not finish in 25 minutes)"
+                    break
                 if "VIOLATION" in out:
                     hit = c + (" (no-failing-input-found)" if "no-failing-input-found" in out and out.count("VIOLATION") == 1 else "")
                     break
